@@ -92,6 +92,8 @@ pub struct WriterBench {
   // NOTE field order = drop order: the future and the waiter thread borrow `dw`
   async_wait: Option<WaitFuture>,
   pub async_flag: Arc<FlagWaker>,
+  /// second handle on the DataWriter -> Writer command queue, for changes a VSample DataWriter cannot make
+  raw_tx: mio_channel::SyncSender<WriterCommand>,
   // every poll of the ack-wait future hands over a waker of a new generation: only the latest one counts
   async_gen: Arc<std::sync::atomic::AtomicU64>,
   async_stale: Arc<std::sync::atomic::AtomicU64>,
@@ -176,6 +178,7 @@ impl WriterBench {
     if cfg.frag_size > 0 {
       writer.data_max_size_serialized = cfg.frag_size;
     }
+    let raw_tx = dwcc_upload.clone();
     let dw = with_key::DataWriter::<VSample>::new(
       e.publ.clone(),
       topic,
@@ -193,7 +196,7 @@ impl WriterBench {
     let mr = MessageReceiver::new(e.dp.guid_prefix(), acknack_tx, spdp_tx, None);
     let mut own_prefix = [0u8; 12];
     own_prefix.copy_from_slice(e.dp.guid_prefix().as_ref());
-    WriterBench { cfg, async_wait: None, async_flag: Arc::new(FlagWaker(Default::default())), async_gen: Default::default(), async_stale: Default::default(), sync_wait: None, sync_wait2: None, writer, dw: Box::new(dw), mr, acknack_rx, _spdp_rx: spdp_rx, status_rx: pstatus_rx, own_prefix, writer_eid, qos }
+    WriterBench { cfg, raw_tx, async_wait: None, async_flag: Arc::new(FlagWaker(Default::default())), async_gen: Default::default(), async_stale: Default::default(), sync_wait: None, sync_wait2: None, writer, dw: Box::new(dw), mr, acknack_rx, _spdp_rx: spdp_rx, status_rx: pstatus_rx, own_prefix, writer_eid, qos }
   }
 
   pub fn writer_guid(&self) -> [u8; 16] {
@@ -225,6 +228,25 @@ impl WriterBench {
     let r = self.dw.dispose(&key, src_ts.map(Timestamp::from_ticks)).map_err(|e| format!("{e:?}"));
     (r, self.process_commands())
   }
+  /// A change with an arbitrary serialized body (CDR_LE encapsulation), as a DataWriter of some other type would
+  /// hand it to the Writer: a value, or a dispose that carries its (possibly large) serialized key.
+  /// Do not mix with `write` on the same bench: the sequence numbers are the caller's.
+  pub fn write_raw(&mut self, dispose_by_key: bool, body: Vec<u8>, sn: i64) -> Vec<Sent> {
+    use crate::{
+      dds::ddsdata::DDSData,
+      messages::submessages::elements::serialized_payload::SerializedPayload,
+      structure::{cache_change::ChangeKind, sequence_number::SequenceNumber},
+      RepresentationIdentifier,
+    };
+    let sp = SerializedPayload::new_from_bytes(RepresentationIdentifier::CDR_LE, Bytes::from(body));
+    let ddsdata = if dispose_by_key { DDSData::new_disposed_by_key(ChangeKind::NotAliveDisposed, sp) } else { DDSData::new(sp) };
+    self
+      .raw_tx
+      .try_send(WriterCommand::DDSData { ddsdata, write_options: crate::dds::with_key::datawriter::WriteOptions::default(), sequence_number: SequenceNumber::new(sn) })
+      .expect("raw command");
+    self.process_commands()
+  }
+
   pub fn process_commands(&mut self) -> Vec<Sent> {
     net::capture_begin();
     self.writer.process_writer_command();
